@@ -124,6 +124,9 @@ type recApp struct {
 }
 
 type State struct {
+	// symbolic trace of calls through an unknown function value (callback): argument and result per call
+	tlen       *Term
+	targ, tret Mem
 	recApps        []recApp
 	caseTerm       *Term // proof-by-cases hint (see markCases)
 	caseLo, caseHi int
@@ -145,7 +148,8 @@ func newState() *State {
 func (s *State) clone() *State {
 	n := &State{pc: append([]*Term(nil), s.pc...), objs: make(map[*Object]Value, len(s.objs)), rgn: make(map[*Region]*RegionState, len(s.rgn)),
 		inst: append([]*Term(nil), s.inst...), qh: append([]*QHyp(nil), s.qh...), alloc: s.alloc, trace: append([]CallRec(nil), s.trace...),
-		caseTerm: s.caseTerm, caseLo: s.caseLo, caseHi: s.caseHi, recApps: append([]recApp(nil), s.recApps...)}
+		caseTerm: s.caseTerm, caseLo: s.caseLo, caseHi: s.caseHi, recApps: append([]recApp(nil), s.recApps...),
+		tlen: s.tlen, targ: s.targ, tret: s.tret}
 	for k, v := range s.objs {
 		n.objs[k] = v
 	}
